@@ -535,3 +535,10 @@ mod tests {
         assert_eq!(table.closest_nodes(table_id.into()).count(), 0);
     }
 }
+
+// Verification harnesses (compiled only by `cargo kani`; inert otherwise).
+#[cfg(kani)]
+#[allow(dead_code, unused_imports)]
+mod verif {
+    include!(concat!(env!("BTDHT_VERIF"), "/harness/table.rs"));
+}
